@@ -15,6 +15,15 @@ class Val(object):
     def __init__(self, base, dots=0, r1=1, r2=1):
         from mingus.core import value as V
         self.base, self.dots, self.r1, self.r2 = base, dots, r1, r2
+        if base == "ticks":
+            # a value that is not in the dotted / tuplet vocabulary: the float 288/k, lasting exactly k ticks (k/288 of a whole note)
+            self.length, self.value, self.label = Fraction(dots, 288), 288.0 / dots, "288/%d" % dots
+            return
+        if base == "tied":
+            # two vocabulary values tied together through the library's own value.add (a float a hair off the exact quotient)
+            a, b = Val(*dots[0]), Val(*dots[1])
+            self.length, self.value, self.label = a.length + b.length, V.add(a.value, b.value), "%s+%s" % (a.label, b.label)
+            return
         self.length = (Fraction(1) / Fraction(base)) * (2 - Fraction(1, 2 ** dots)) * Fraction(r2, r1)
         v = base
         if dots:
